@@ -135,6 +135,9 @@ func (e *G1) Unmarshal(m []byte) ([]byte, error) {
 	if len(m) < 2*numBytes {
 		return nil, errors.New("bn256: not enough data")
 	}
+	if !canonicalCoordinates(m[:2*numBytes]) {
+		return nil, errors.New("bn256: coordinate exceeds modulus")
+	}
 
 	if e.p == nil {
 		e.p = &curvePoint{}
@@ -339,6 +342,9 @@ func (e *G2) Unmarshal(m []byte) ([]byte, error) {
 	//} else
 	if len(m) < 4*numBytes {
 		return nil, errors.New("bn256: not enough data")
+	}
+	if !canonicalCoordinates(m[:4*numBytes]) {
+		return nil, errors.New("bn256: coordinate exceeds modulus")
 	}
 	//} else if len(m) > 0 && m[0] != 0x01 {
 	//	return nil, errors.New("bn256: malformed point")
@@ -559,4 +565,14 @@ func (g *G1) IsNil() bool {
 
 func (e *G2) IsEmpty() bool {
 	return e.p == nil
+}
+
+// IsInfinity reports whether g is unset or the point at infinity.
+func (g *G1) IsInfinity() bool {
+	return g.p == nil || g.p.IsInfinity()
+}
+
+// IsInfinity reports whether e is unset or the point at infinity.
+func (e *G2) IsInfinity() bool {
+	return e.p == nil || e.p.IsInfinity()
 }
